@@ -1,5 +1,6 @@
 import GoSSE.Proofs.SessionServer
 import GoSSE.Proofs.GenEquivSession
+import GoSSE.Proofs.GenEquivUpgrade
 /-!
 # C16 — Session and Server keep the HTTP side of the protocol
 
@@ -340,5 +341,19 @@ example :
        .send { chunks := [{ content := [120], isComment := false }], id := { value := [55], set := true } }]).map (·.1) =
     .ok [some "0", none, none] := by
   rfl
+
+/-- **`sse.Upgrade` as translated from session.go.** Which writer the session gets is `getResponseWriter`'s answer, a
+parameter here (`grw`: any function; its model is `getResponseWriter_spec` above, tied by the SESS / SERVE
+correspondence): when it answers nil, `Upgrade` returns `ErrUpgradeUnsupported` and no session; otherwise a session over
+that writer and the request, not yet upgraded, whose `LastEventID` is `upgradeLastEventID` of the values stored under
+the canonical `Last-Event-Id` key — the function `last_event_id_cases` is stated over. It does not panic. -/
+theorem translated_Upgrade_is_model {σ : Type} (fuel : Nat) (w : GoRT.HttpRW) (r : GoRT.HttpReq)
+    (grw : GoRT.HttpRW → Option (GoRT.ResW σ))
+    (hf : ∀ v ∈ (GoRT.headerGet r.Header GenEquiv.lastEventIdKey).head?, v.length < fuel) :
+    Gen.Upgrade fuel w r grw =
+      .ok (match grw w with
+           | none => (none, some "ErrUpgradeUnsupported", r)
+           | some rw => (some (GenEquiv.sessOf rw r (GoSSE.Model.upgradeLastEventID (GoRT.headerGet r.Header GenEquiv.lastEventIdKey))), none, r)) :=
+  GenEquiv.Upgrade_eq fuel w r grw hf
 
 end GoSSE.Props.C16
